@@ -49,6 +49,11 @@ CHECKS = [
         "Four-file configurations are sampled in the quick tier; provider terms are host-operation-free closed values (a provider cannot reach the Builtin package without being parameterised).",
         "TLA+ implementation-shaped loader/DFS model vs declarative graph oracle model checked by TLC; spec->code replay on real directories; split-vs-inline replay against the reference semantics",
         "DESIGN.md §4 C09"),
+    chk("C15", "model_checking",
+        "spec/ZySession.tla is the property as a state machine: one action per public mutator (set_overlay, clear_overlay, write+refresh_disk, delete+refresh_disk) over {disk, overlay} for root.zy, lib.zy, lib.zyi, other.zy with 20 content variants (valid, syntax error, type error, imports that create cycles, matching/mismatching/non-type companion, an executable root), every answer defined from scratch. TLC enumerates every history of 2 operations (thorough: 3, 192000 histories) from three adversarial start states plus long simulated histories; each is replayed on one long-lived CompilerSession and after every operation graph, outcome, culprit and executable behaviour are compared with the model, and rendered diagnostics with locations, coverage and source set with a fresh session on the same effective contents. Recorded random 150-step histories with memo-evicting noise queries are validated by TLC against spec/ZySessionTrace.tla.",
+        "Four files; per-node fact queries (normalized_type, annotation_of_def) are not compared. The pinned tree violated the property (F9) and was repaired by a fix: commit.",
+        "TLA+ from-scratch session semantics; TLC-enumerated and simulated edit histories replayed on a long-lived session (model + fresh-session oracle); TLC trace validation of recorded histories",
+        "DESIGN.md §4 C15"),
 ]
 
 PENDING_REASON = "check not built yet (planned, see DESIGN.md)"
